@@ -41,7 +41,27 @@ impl Diff {
     }
 
     /// the witness class, most fundamental disagreement first
-    pub fn class(&self) -> &'static str {
+    pub fn class(&self, floor: u64) -> &'static str {
+        let only_roots = self.abandoned_blocks.is_empty()
+            && self.missing_blocks.is_empty()
+            && self.blocks_above_target.is_empty()
+            && self.tx_missing.is_empty()
+            && self.tx_extra.is_empty();
+        let wrong_roots: Vec<u64> = self
+            .roots_different
+            .iter()
+            .map(|r| r.0)
+            .chain(self.roots_extra.iter().map(|r| r.0))
+            .chain(self.roots_missing.iter().map(|r| r.0))
+            .chain(self.legacy_different.iter().map(|r| r.0))
+            .chain(self.legacy_extra.iter().map(|r| r.0))
+            .chain(self.legacy_missing.iter().map(|r| r.0))
+            .collect();
+        if only_roots && !wrong_roots.is_empty() && wrong_roots.iter().all(|start| *start < floor) {
+            // every wrong root belongs to a range that starts below the prune threshold: it was
+            // (re)computed while some of its blocks were already pruned
+            return PRUNED_ROOTS_CLASS;
+        }
         if !self.abandoned_blocks.is_empty() {
             "C13 blocks of an abandoned fork remain stored"
         } else if !self.missing_blocks.is_empty() {
@@ -149,25 +169,61 @@ pub fn compare(stored: &Snapshot, reference: &Snapshot, floor: u64, limit: Optio
 
 /// What the chain-sync model relayed during the import, relative to what was stored before it.
 /// Fixed strings only (they become part of the signature).
-pub fn cause(log: &ReaderLog, before: &Snapshot, first_import_after_restart: bool) -> String {
-    let mut parts: Vec<&'static str> = vec![];
-    if log.relayed.is_empty() && log.asked.is_empty() {
-        parts.push("import did not consult the node: target at or below the highest stored block");
-    } else {
-        // the streamer skips RollBackward(slot of its starting point)
-        let from_slot = log.asked.first().map(|a| a.0);
-        let stored_slots: BTreeSet<u64> = before.blocks.iter().map(|b| b.1).collect();
-        let mut seen = BTreeSet::new();
-        for r in &log.relayed {
-            if let Relayed::Backward { slot, number } = r {
+pub const NOT_CONSULTED: &str = "import did not consult the node: target at or below the highest stored block";
+
+pub const BEFORE_FIRST: &str = "C13 roll-back to a point before the first stored block is ignored by the store";
+pub const STREAMER_SKIP: &str = "C13 roll-back to the streamer's starting point received after roll-forwards is skipped by the streamer";
+pub const PRUNED_RANGE: &str = "C13 block range root recomputed over pruned blocks after a roll-back into a partly pruned range";
+pub const PRUNED_ROOTS_CLASS: &str = "C13 block range root recomputed over pruned blocks";
+
+struct Walk {
+    labels: Vec<&'static str>,
+    not_found: bool,
+    no_agency: bool,
+    /// a RollBackward to the starting point of the current streamer arrived after that streamer
+    /// had already been given roll-forwards: `ChainReaderBlockStreamer` skips it all the same
+    skipped_genuine: bool,
+    before_first: bool,
+}
+
+fn walk(log: &ReaderLog, before: &Snapshot) -> Walk {
+    let stored_slots: BTreeSet<u64> = before.blocks.iter().map(|b| b.1).collect();
+    let mut w = Walk { labels: vec![], not_found: false, no_agency: false, skipped_genuine: false, before_first: false };
+    let mut seen = BTreeSet::new();
+    // the streamer skips RollBackward(slot of ITS starting point); every set_chain_point is the
+    // start of a new streamer (ByChunk makes several per import)
+    let mut from_slot: Option<u64> = None;
+    let mut forwards_since_set_point = 0u64;
+    for r in &log.relayed {
+        match r {
+            Relayed::SetPoint { slot, found, agency } => {
+                from_slot = Some(*slot);
+                forwards_since_set_point = 0;
+                if !*agency {
+                    w.no_agency = true;
+                } else if !*found {
+                    w.not_found = true;
+                }
+            }
+            Relayed::Forward { .. } => forwards_since_set_point += 1,
+            Relayed::Backward { slot, number } => {
                 if Some(*slot) == from_slot {
+                    if forwards_since_set_point > 0 {
+                        w.skipped_genuine = true;
+                        let c = "roll-back to the streamer's starting point relayed after roll-forwards";
+                        if seen.insert(c) {
+                            w.labels.push(c);
+                        }
+                    }
                     continue;
                 }
-                let c = if number.is_none() {
-                    "roll-back to origin relayed"
-                } else if stored_slots.is_empty() {
+                let c = if stored_slots.is_empty() {
                     "roll-back relayed while nothing is stored"
+                } else if number.is_none() {
+                    w.before_first = true;
+                    "roll-back to origin relayed"
                 } else if *slot < *stored_slots.iter().next().unwrap() {
+                    w.before_first = true;
                     "roll-back to a point before the first stored block relayed"
                 } else if *slot > *stored_slots.iter().next_back().unwrap() {
                     "roll-back to a point above the highest stored block relayed"
@@ -177,21 +233,48 @@ pub fn cause(log: &ReaderLog, before: &Snapshot, first_import_after_restart: boo
                     "roll-back to a point between stored blocks that is not stored relayed"
                 };
                 if seen.insert(c) {
-                    parts.push(c);
+                    w.labels.push(c);
                 }
             }
+            _ => {}
         }
-        if seen.is_empty() {
-            parts.push("no roll-back relayed");
-        }
-        if log.asked.iter().any(|a| !a.1) {
-            parts.push("intersection with the resume point not found");
-        }
+    }
+    w
+}
+
+/// description of what happened on the chain-sync connection during the import
+pub fn cause(log: &ReaderLog, before: &Snapshot, first_import_after_restart: bool) -> String {
+    if log.relayed.is_empty() {
+        return NOT_CONSULTED.to_string();
+    }
+    let w = walk(log, before);
+    let mut parts = w.labels.clone();
+    if parts.is_empty() {
+        parts.push("no roll-back relayed");
+    }
+    if w.not_found {
+        parts.push("intersection with the resume point not found");
+    }
+    if w.no_agency {
+        parts.push("resumed without agency (client was awaiting at the tip)");
     }
     if first_import_after_restart {
         parts.push("first import after a restart");
     }
     parts.join("; ")
+}
+
+/// One signature per root cause: when the import saw one of the two triggers below, whatever
+/// disagreement follows (abandoned blocks, foreign key failure, wrong roots) is filed under it.
+pub fn root_cause(log: &ReaderLog, before: &Snapshot) -> Option<&'static str> {
+    let w = walk(log, before);
+    if w.skipped_genuine {
+        Some(STREAMER_SKIP)
+    } else if w.before_first {
+        Some(BEFORE_FIRST)
+    } else {
+        None
+    }
 }
 
 pub fn relayed_json(log: &ReaderLog) -> Value {
@@ -211,6 +294,10 @@ pub fn relayed_json(log: &ReaderLog) -> Value {
                     Some((a, _, n)) => (a, *number, n + 1),
                 })
             }
+            Relayed::SetPoint { slot, found, agency } => {
+                flush(&mut run, &mut out);
+                out.push(json!({"set_chain_point": {"slot": slot, "intersection_found": found, "client_has_agency": agency}}));
+            }
             Relayed::Backward { slot, number } => {
                 flush(&mut run, &mut out);
                 out.push(json!({"backward": {"slot": slot, "block": number}}));
@@ -226,5 +313,5 @@ pub fn relayed_json(log: &ReaderLog) -> Value {
         }
     }
     flush(&mut run, &mut out);
-    json!({"set_chain_point(slot,found)": log.asked, "relayed": out})
+    Value::Array(out)
 }
